@@ -2,6 +2,7 @@ import FluentVerif.Driver.Render
 import FluentVerif.Driver.Tree
 import FluentVerif.Forward.Spec
 import FluentVerif.Proto.Chunk
+import FluentVerif.Proto.ChunkID
 /-! driver operations on the codec: DEC (decode) -/
 namespace FV.Driver
 
@@ -290,4 +291,44 @@ def opCHUNK (args obs : List String) : Option DecOut :=
              branch := s!"chunk.{cls}.{if wf then "wf" else "other"}.{(go.splitOn " ").headD "?"}" }
   | _ => none
 
+end FV.Driver
+
+namespace FV.Driver
+/-- `CID kind optstate => id1 id2 optsAfter chunkB chunkS getChunk` (all hex) -/
+def opCID (args obs : List String) : Option DecOut :=
+  match args, obs with
+  | [kind, st], [i1, i2, oa, cb, cs, gc] =>
+    match parseHex i1, parseHex i2, parseHex cb, parseHex cs, parseHex gc with
+    | some id1, some id2, some chB, some chS, some g =>
+      let pre : Option (Option Options) :=
+        if st == "N" then some none
+        else if st == "E" then some (some {})
+        else if st == "S" then some (some { size := some 3 })
+        else if st.startsWith "P" then (parseHex (st.drop 1).toString).map fun c => some { chunk := c }
+        else none
+      match pre with
+      | none => none
+      | some opts =>
+        let preset := (opts.getD {}).chunk
+        -- the draw is recovered from the id the real code produced
+        let draw := (b64dec id1).getD []
+        let (mo, mid) := chunkCall opts draw
+        let shapeOk := preset != [] ||
+          (draw.length == 16 && ((draw.getD 6 0).toNat / 16 == 4) && ((draw.getD 8 0).toNat / 64 == 2) && uuidMask draw == draw)
+        let corr := if mid == id1 && renderOptions mo == oa then none
+          else some s!"model id={toHex mid} opts={renderOptions mo} go id={toHex id1} opts={oa}"
+        let fails :=
+          (if id2 == id1 then [] else ["C12 second Chunk() call returned a different id"]) ++
+          (if preset != [] && id1 != preset then ["C12 caller-supplied id not preserved"] else []) ++
+          (if shapeOk then [] else ["C12 generated id is not base64 of a version-4 UUID"]) ++
+          (if chB == id1 && chS == id1 then [] else ["C12 encoding does not carry the id as its chunk option"]) ++
+          (if g == id1 then [] else ["C12 GetChunk of the encoding differs from the id"])
+        some { corr := corr, fails := fails, branch := s!"cid.{kind}.{(st.take 1).toString}" }
+    | _, _, _, _, _ => none
+  | ["stress", _, _], [d, bad] =>
+    some { corr := none,
+           fails := (if d == "dups=0" then [] else [s!"C12 duplicate ids under concurrency {d}"]) ++
+                    (if bad == "bad=0" then [] else [s!"C12 malformed ids {bad}"]),
+           branch := "cid.stress" }
+  | _, _ => none
 end FV.Driver
